@@ -55,6 +55,18 @@ def peak_kb():
     return 0
 
 
+def vm_peak_kb():
+    """peak virtual size so far (monotonic): a buffer that is requested but never touched shows here, not in VmHWM"""
+    try:
+        with open("/proc/self/status") as f:
+            for line in f:
+                if line.startswith("VmPeak:"):
+                    return int(line.split()[1])
+    except OSError:
+        pass
+    return 0
+
+
 def rss_kb():
     try:
         with open("/proc/self/status") as f:
@@ -106,6 +118,7 @@ def main():
         before = fds()
         peak_reset()
         rss0 = rss_kb()
+        vmp0 = vm_peak_kb()
         t0 = time.process_time()
         result = None
         wrec = warnings.catch_warnings(record=True)
@@ -144,6 +157,7 @@ def main():
             del e
         res["cpu_s"] = round(time.process_time() - t0, 4)
         res["peak_kb"] = max(0, peak_kb() - rss0)
+        res["vm_peak_growth_kb"] = max(0, vm_peak_kb() - vmp0)
         # drop the result, then look at the descriptor table: nothing the loader opened may still be open
         result = None
         after = fds()
